@@ -24,6 +24,7 @@ mod netw;
 mod oracles;
 mod plainscan;
 mod tamper;
+mod upgradew;
 mod registry;
 mod rng;
 mod runner;
